@@ -75,10 +75,17 @@ CarriesAll(G, H) ==      \* ... and every attribute of atoms and bonds
   /\ IdentityEq(G, H) /\ \A a \in Atoms(G) : G.attr[a] = H.attr[a]
   /\ G.ebag = H.ebag
 Summary(K) == [n |-> K.n, col |-> [a \in Atoms(K) |-> Colour(K, a)], part |-> K.part, adj |-> K.adj]
+\* atoms are traced through the unique tags: sort both graphs' <<tag, atom>> pairs and line them up (n log n)
+TagPairs(G) == SetToSortSeq({<<G.tag[a], a>> : a \in Atoms(G)}, LAMBDA x, y : x[1] < y[1] \/ (x[1] = y[1] /\ x[2] < y[2]))
 TagsTraceable(G, R) ==
   /\ G.n = R.n
-  /\ \A a \in Atoms(G) : G.tag[a] # 0 /\ Cardinality({b \in Atoms(R) : R.tag[b] = G.tag[a]}) = 1
-SigmaByTag(G, R) == TLCEval([a \in Atoms(G) |-> CHOOSE b \in Atoms(R) : R.tag[b] = G.tag[a]])
+  /\ LET g == TagPairs(G)  r == TagPairs(R) IN
+     /\ \A i \in 1..G.n : g[i][1] # 0 /\ g[i][1] = r[i][1]
+     /\ \A i \in 1..(G.n - 1) : g[i][1] # g[i + 1][1]
+SigmaByTag(G, R) ==
+  LET g == TagPairs(G)  r == TagPairs(R)
+      m == SetToSortSeq({<<g[i][2], r[i][2]>> : i \in 1..G.n}, LAMBDA x, y : x[1] < y[1])
+  IN TLCEval([a \in Atoms(G) |-> m[a][2]])
 Compose(g, f, n) == TLCEval([a \in 1..n |-> g[f[a]]])               \* first f, then g
 DenoteGraph(D) ==        \* the molecule a sentence states, as a graph record (identity fields only)
   LET n == D.n
@@ -88,15 +95,18 @@ DenoteGraph(D) ==        \* the molecule a sentence states, as a graph record (i
       mass |-> TLCEval([i \in 1..n |-> MassOf(i)]), rad |-> TLCEval([i \in 1..n |-> RadOf(i)]),
       hasm |-> TLCEval([i \in 1..n |-> MassOf(i) # 0]), hasr |-> TLCEval([i \in 1..n |-> RadOf(i) # 0]),
       part |-> TLCEval([i \in 1..n |-> 0]),
-      adj |-> TLCEval([a \in 1..n |-> {b \in 1..n : {a, b} \in D.bonds}]),
+      adj |-> FoldLeft(LAMBDA acc, e : [acc EXCEPT ![Min(e)] = @ \cup {Max(e)}, ![Max(e)] = @ \cup {Min(e)}],
+                       [a \in 1..n |-> {}], SetToSeq(D.bonds)),
       tag |-> TLCEval([i \in 1..n |-> 0]), attr |-> TLCEval([i \in 1..n |-> ""]),
       mattr |-> TLCEval([i \in 1..n |-> ""]), chg |-> TLCEval([i \in 1..n |-> 0]),
       ord |-> TLCEval([i \in 1..n |-> i]), ebag |-> {}]
 \* decided without search: different atom counts, colour multisets or bond counts; else brute force when small
-ColourCount(G, c) == Cardinality({a \in Atoms(G) : Colour(G, a) = c})
+ColourBag(G) == LET s == SetToSortSeq({<<G.z[a], G.mass[a], G.rad[a], a>> : a \in Atoms(G)},
+                                        LAMBDA x, y : SeqLess(<<x[1], x[2], x[3], x[4]>>, <<y[1], y[2], y[3], y[4]>>))
+                IN [i \in 1..G.n |-> <<s[i][1], s[i][2], s[i][3]>>]
 CertainlyDifferent(G, H) ==
   \/ G.n # H.n \/ NumEdges(G) # NumEdges(H)
-  \/ \E a \in Atoms(G) : ColourCount(G, Colour(G, a)) # ColourCount(H, Colour(G, a))
+  \/ ColourBag(G) # ColourBag(H)
   \/ (G.n <= BFLimit /\ ~Isomorphic(G, H))
 
 \* ------------------------------------------------------------------ C05: canonical layout of a sentence
@@ -149,12 +159,12 @@ Derive(e) ==
                  /\ (IF e.kind = "relabel" THEN CarriesAll(Apply(G, f), H) ELSE IdentityEq(Apply(G, f), H))
      IN /\ objs' = objs @@ (e.obj :> H)
         /\ cls' = cls @@ (e.obj :> IF good THEN cls[e.from] ELSE e.obj)
-        /\ root' = root @@ (e.obj :> IF good THEN [b \in Atoms(H) |-> root[e.from][InvPerm(f, G.n)[b]]]
+        /\ root' = root @@ (e.obj :> IF good THEN LET fi == InvPerm(f, G.n) IN [b \in Atoms(H) |-> root[e.from][fi[b]]]
                                             ELSE [b \in Atoms(H) |-> b])
         /\ prov' = prov @@ (e.obj :> [cl |-> IF good THEN cls[e.from] ELSE e.obj, g |-> H,
                                      \* the same graph with attributes added (identity renaming) is still "the parse of pstr"
                                      pstr |-> IF good /\ (\A i \in 1..G.n : f[i] = i) THEN prov[e.from].pstr ELSE "",
-                                     rt |-> IF good THEN [b \in Atoms(H) |-> root[e.from][InvPerm(f, G.n)[b]]] ELSE [b \in Atoms(H) |-> b]])
+                                     rt |-> IF good THEN LET fi == InvPerm(f, G.n) IN [b \in Atoms(H) |-> root[e.from][fi[b]]] ELSE [b \in Atoms(H) |-> b]])
         /\ viol' = viol \cup (IF good THEN {} ELSE {"H:derivation-does-not-verify"})
   /\ UNCHANGED <<strOf, canonOf, rootPart, sers, strs, mols, results>>
 
@@ -179,9 +189,10 @@ SameMol(e) ==
          ca == cls[e.a]  cb == cls[e.b]
          merge == good /\ ca # cb
          \* atom y of ca's first object, seen as an atom of cb's first object
-         Across(y) == root[e.b][f[InvPerm(root[e.a], G.n)[y]]]
+         ira == InvPerm(root[e.a], G.n)  irb == InvPerm(root[e.b], H.n)  fi == InvPerm(f, G.n)
+         Across(y) == root[e.b][f[ira[y]]]
          \* atom v of cb's first object, seen as an atom of ca's first object
-         Tr(v) == root[e.a][InvPerm(f, G.n)[InvPerm(root[e.b], H.n)[v]]]
+         Tr(v) == root[e.a][fi[irb[v]]]
          rpb == IF merge /\ Known(rootPart, cb) THEN [y \in Atoms(G) |-> rootPart[cb][Across(y)]] ELSE <<>>
      IN /\ viol' = viol
              \cup (IF good THEN {} ELSE {"H:same-molecule-claim-does-not-verify"})
@@ -211,14 +222,16 @@ CanonClauses(e, G, R) ==
   LET traceable == TagsTraceable(G, R)
       sigma == IF traceable THEN SigmaByTag(G, R) ELSE [a \in Atoms(G) |-> a]
       c == cls[e.arg]
-      rp == IF traceable THEN [x \in Atoms(G) |-> R.part[sigma[InvPerm(root[e.arg], G.n)[x]]]] ELSE <<>>
+      ir == InvPerm(root[e.arg], G.n)
+      rp == IF traceable THEN [x \in Atoms(G) |-> R.part[sigma[ir[x]]]] ELSE <<>>
+      AG == IF traceable THEN Apply(G, sigma) ELSE G
   IN
   \* C12: a one-to-one renaming onto 0..n-1, nothing lost, argument untouched
      (IF G.n = R.n THEN {} ELSE {"C12:atom-count-changed"})
   \cup (IF traceable THEN {} ELSE {"C12:atoms-not-traceable(attributes-lost-or-atoms-merged)"})
   \cup (IF traceable /\ ~(\A a \in Atoms(G) : R.attr[sigma[a]] = G.attr[a]) THEN {"C12:atom-attributes-changed"} ELSE {})
-  \cup (IF traceable /\ Apply(G, sigma).ebag # R.ebag THEN {"C12:bonds-or-bond-attributes-changed"} ELSE {})
-  \cup (IF traceable /\ Apply(G, sigma).adj # R.adj THEN {"C12:adjacency-changed"} ELSE {})
+  \cup (IF traceable /\ AG.ebag # R.ebag THEN {"C12:bonds-or-bond-attributes-changed"} ELSE {})
+  \cup (IF traceable /\ AG.adj # R.adj THEN {"C12:adjacency-changed"} ELSE {})
   \cup (IF Has(e, "after") /\ GraphOf(e.after) # GraphOf(e.before) THEN {"C12:canonicalize-mutated-its-argument"} ELSE {})
   \* C04: same molecule, same labelled graph
   \cup (IF Known(canonOf, c) /\ canonOf[c] # Summary(R) THEN {"C04:labelled-graph-differs-between-descriptions"} ELSE {})
@@ -243,12 +256,12 @@ Canonicalize(e) ==
         /\ objs' = objs @@ (e.ret :> R)
         /\ cls' = cls @@ (e.ret :> IF traceable /\ IsColourIso(G, R, sigma) THEN c ELSE e.ret)
         /\ root' = root @@ (e.ret :> IF traceable /\ G.n = R.n
-                                       THEN [b \in Atoms(R) |-> root[e.arg][InvPerm(sigma, G.n)[b]]]
+                                       THEN LET si == InvPerm(sigma, G.n) IN [b \in Atoms(R) |-> root[e.arg][si[b]]]
                                        ELSE [b \in Atoms(R) |-> b])
         /\ prov' = prov @@ (e.ret :> [cl |-> c, g |-> G, rt |-> root[e.arg], pstr |-> prov[e.arg].pstr])
         /\ canonOf' = IF Known(canonOf, c) THEN canonOf ELSE canonOf @@ (c :> Summary(R))
         /\ rootPart' = IF Known(rootPart, c) \/ ~traceable THEN rootPart
-                       ELSE rootPart @@ (c :> [x \in Atoms(G) |-> R.part[sigma[InvPerm(root[e.arg], G.n)[x]]]])
+                       ELSE rootPart @@ (c :> LET ir == InvPerm(root[e.arg], G.n) IN [x \in Atoms(G) |-> R.part[sigma[ir[x]]]])
   /\ UNCHANGED <<strOf, sers, strs, mols, results>>
 
 \* --- an automorphism of an object, constructed by the driver and verified here (C13 beyond brute force)
@@ -332,7 +345,7 @@ Parse(e) ==
                  linked == Has(e, "of") /\ Known(objs, e.of) /\ Has(e, "wit") /\ prov[e.of].g.n = P.n
                            /\ IsColourIso(prov[e.of].g, P, PermOf(e.wit))
                     pc == IF linked THEN prov[e.of].cl ELSE IF Has(e, "sid") /\ Known(strs, e.sid) THEN strs[e.sid].cl ELSE e.ret
-                    rt == IF linked THEN [b \in Atoms(P) |-> prov[e.of].rt[InvPerm(PermOf(e.wit), P.n)[b]]] ELSE [b \in Atoms(P) |-> b]
+                    rt == IF linked THEN LET wi == InvPerm(PermOf(e.wit), P.n) IN [b \in Atoms(P) |-> prov[e.of].rt[wi[b]]] ELSE [b \in Atoms(P) |-> b]
              IN /\ objs' = objs @@ (e.ret :> P)
                 /\ cls' = cls @@ (e.ret :> pc)
                 /\ root' = root @@ (e.ret :> rt)
@@ -380,10 +393,10 @@ Permute(e) ==
      IN /\ viol' = viol \cup PermuteClauses(e, G, R)
         /\ objs' = objs @@ (e.ret :> R)
         /\ cls' = cls @@ (e.ret :> IF traceable /\ IsColourIso(G, R, sigma) THEN cls[e.arg] ELSE e.ret)
-        /\ root' = root @@ (e.ret :> IF traceable THEN [b \in Atoms(R) |-> root[e.arg][InvPerm(sigma, G.n)[b]]]
+        /\ root' = root @@ (e.ret :> IF traceable THEN LET si == InvPerm(sigma, G.n) IN [b \in Atoms(R) |-> root[e.arg][si[b]]]
                                                        ELSE [b \in Atoms(R) |-> b])
         /\ prov' = prov @@ (e.ret :> [cl |-> IF traceable /\ IsColourIso(G, R, sigma) THEN cls[e.arg] ELSE e.ret, g |-> R, pstr |-> "",
-                                     rt |-> IF traceable THEN [b \in Atoms(R) |-> root[e.arg][InvPerm(sigma, G.n)[b]]] ELSE [b \in Atoms(R) |-> b]])
+                                     rt |-> IF traceable THEN LET si == InvPerm(sigma, G.n) IN [b \in Atoms(R) |-> root[e.arg][si[b]]] ELSE [b \in Atoms(R) |-> b]])
   /\ UNCHANGED <<strOf, canonOf, rootPart, sers, strs, mols, results>>
 
 \* ------------------------------------------------------------------ molfile texts (C06 - C09)
